@@ -27,6 +27,19 @@ class EnumVal:
         return int(self.value)
 
 
+class RegexVal:
+    """value of re.compile(pattern, flags) with both folded"""
+
+    def __init__(self, pattern, flags):
+        self.pattern, self.flags = pattern, int(flags)
+
+    def __repr__(self):
+        return f"re.compile({self.pattern!r}, {self.flags})"
+
+
+_RE_FLAGS = ("I", "IGNORECASE", "M", "MULTILINE", "S", "DOTALL", "X", "VERBOSE", "A", "ASCII", "U", "UNICODE", "L", "LOCALE")
+
+
 class LambdaVal:
     def __init__(self, node, mod):
         self.node, self.mod = node, mod
@@ -172,6 +185,9 @@ class Folder:
             except Exception as e:
                 raise NotConst(f"binop failed: {e}")
         if isinstance(node, ast.Attribute):
+            if isinstance(node.value, ast.Name) and node.value.id == "re" and node.attr in _RE_FLAGS:
+                import re as _re
+                return int(getattr(_re, node.attr))
             # Enum member: Cls.MEMBER
             if isinstance(node.value, ast.Name):
                 try:
@@ -258,16 +274,43 @@ class Folder:
                 if r and r[0] == "func":
                     fn = r[1]
                     body = [s for s in fn.body if not (isinstance(s, ast.Expr) and isinstance(s.value, ast.Constant))]
-                    if len(body) == 1 and isinstance(body[0], ast.Return) and body[0].value is not None:
+                    straight = body and isinstance(body[-1], ast.Return) and body[-1].value is not None and all(
+                        isinstance(s, ast.Assign) and len(s.targets) == 1 and isinstance(s.targets[0], ast.Name) for s in body[:-1])
+                    if straight and not fn.args.kwonlyargs and not fn.args.kwarg and not fn.decorator_list:
                         params = [a.arg for a in fn.args.args]
+                        vals = [ev(a) for a in node.args]
                         l2 = {}
-                        for p, a in zip(params, node.args):
-                            l2[p] = ev(a)
+                        for p, a in zip(params, vals):
+                            l2[p] = a
+                        if len(vals) > len(params):
+                            if not fn.args.vararg:
+                                raise NotConst("too many arguments")
+                            l2[fn.args.vararg.arg] = tuple(vals[len(params):])
+                        elif fn.args.vararg:
+                            l2[fn.args.vararg.arg] = ()
+                        nd = len(fn.args.defaults)
+                        for p, d in zip(params[len(params) - nd:], fn.args.defaults):
+                            if p not in l2:
+                                l2[p] = self.ev(d, r[2], depth + 1)
                         for k, v in kw.items():
                             l2[k] = v
-                        return self.ev(body[0].value, r[2], depth + 1, l2)
+                        if any(p not in l2 for p in params):
+                            raise NotConst("missing argument")
+                        for s_ in body[:-1]:
+                            l2[s_.targets[0].id] = self.ev(s_.value, r[2], depth + 1, l2)
+                        return self.ev(body[-1].value, r[2], depth + 1, l2)
             raise NotConst("call " + n)
         if isinstance(f, ast.Attribute):
+            if f.attr == "compile" and isinstance(f.value, ast.Name) and f.value.id == "re" and node.args:
+                pat = ev(node.args[0])
+                flags = 0
+                if len(node.args) > 1:
+                    flags = ev(node.args[1])
+                if "flags" in kw:
+                    flags = kw["flags"]
+                if not isinstance(pat, (str, bytes)) or not isinstance(flags, int):
+                    raise NotConst("re.compile arguments")
+                return RegexVal(pat, flags)
             if f.attr == "join":
                 sep = ev(f.value)
                 items = ev(node.args[0])
